@@ -467,6 +467,8 @@ def _init(seed, tier):
     ]
     build_exprs(tier)
     ref_of.cache_clear()
+    if not _FAMS:
+        _FAMS.extend(families())
 
 
 # ---------------------------------------------------------------------------------------------
@@ -640,12 +642,14 @@ def run_compose(case):
     r1, r2 = make_resolver(tuple(s1) + (0,)), make_resolver(tuple(s2) + (1,))
     label = f"resolve_parameters({describe_spec(tuple(s1) + (0,))}, {describe_spec(tuple(s2) + (1,))}, recursive={recursive})"
     any_cycle = bool(rm1.cyclic or rm2.cyclic)
-    union = None
-    if recursive:
-        um = dict(rm2.m)
-        um.update(rm1.m)
-        union = RefMap(um)
-        any_cycle = any_cycle or bool(union.cyclic)
+    if recursive and not any_cycle:
+        # the composed single-step map k -> r2(r1(k)); iterating it may cycle when r2 re-introduces a key of r1
+        cm = {}
+        for k in list(rm1.m) + [k for k in rm2.m if k not in rm1.m]:
+            x1, _ = rm1.fix(k)
+            x2, _ = rm2.fix(x1)
+            cm[k] = x2
+        any_cycle = bool(RefMap(cm).cyclic)
     try:
         comp = cirq.resolve_parameters(r1, r2, recursive)
     except RecursionError:
@@ -703,6 +707,1133 @@ def compose_cases(tier):
 
 
 # ---------------------------------------------------------------------------------------------
+# stage (c): sweeps against a list-of-dicts reference
+
+PVALS = {"x": [0.1, 0.2, 0.3], "y": [1.1, 1.2, 1.3], "z": [2.1, 2.2, 2.3]}
+SX = sympy.Symbol("x")
+
+
+def ls_def(i):
+    return [
+        [],
+        [{"x": 7.0}],
+        [{"x": 0.5, "y": 0.6}, {"x": 0.7, "y": 0.8}],
+        [cirq.ParamResolver({SX: 9.0}), cirq.ParamResolver({SX: 10.0})],
+    ][i]
+
+
+class RefError(Exception):
+    """The reference semantics say the construction must be rejected (ValueError)."""
+
+
+class RefEither(Exception):
+    """Both rejection and acceptance are compatible with the documentation."""
+
+
+COMB = ("Prod", "Zip", "ZipL", "Cat", "add", "mul")
+
+
+def _lin(n, start, stop):
+    if n == 1:
+        return [start]
+    return [start + (stop - start) * i / (n - 1) for i in range(n)]
+
+
+def _gen_start():
+    return core.generic(_SEED, 3)
+
+
+def build_sweep(t):
+    tag = t[0]
+    if tag == "U":
+        return cirq.UnitSweep
+    if tag == "P":
+        return cirq.Points(t[1], list(PVALS[t[1]][: t[2]]))
+    if tag == "Ps":
+        return cirq.Points(sympy.Symbol(t[1]), tuple(PVALS[t[1]][: t[2]]))
+    if tag == "L":
+        return cirq.Linspace(t[1], 0, 1, t[2])
+    if tag == "Lg":
+        return cirq.Linspace(t[1], _gen_start(), _gen_start() + 1.3, t[2])
+    if tag == "LS":
+        return cirq.ListSweep(ls_def(t[1]))
+    subs = [build_sweep(x) for x in t[1:]]
+    if tag == "Prod":
+        return cirq.Product(*subs)
+    if tag == "Zip":
+        return cirq.Zip(*subs)
+    if tag == "ZipL":
+        return cirq.ZipLongest(*subs)
+    if tag == "Cat":
+        return cirq.Concat(*subs)
+    if tag == "add":
+        return subs[0] + subs[1]
+    if tag == "mul":
+        return subs[0] * subs[1]
+    raise core.HarnessError(f"bad sweep term {t}")
+
+
+def ref_sweep(t):
+    """-> (keys, rows): rows = list of tuples of (key, value)."""
+    tag = t[0]
+    if tag == "U":
+        return [], [()]
+    if tag in ("P", "Ps"):
+        return [t[1]], [((t[1], v),) for v in PVALS[t[1]][: t[2]]]
+    if tag == "L":
+        return [t[1]], [((t[1], v),) for v in _lin(t[2], 0.0, 1.0)]
+    if tag == "Lg":
+        return [t[1]], [((t[1], v),) for v in _lin(t[2], _gen_start(), _gen_start() + 1.3)]
+    if tag == "LS":
+        rows = []
+        for r in ls_def(t[1]):
+            d = r.param_dict if isinstance(r, cirq.ParamResolver) else r
+            rows.append(tuple((k.name if isinstance(k, sympy.Symbol) else k, v) for k, v in d.items()))
+        return ([k for k, _ in rows[0]] if rows else []), rows
+    subs = [ref_sweep(x) for x in t[1:]]
+    keys = [k for ks, _ in subs for k in ks]
+    rowsets = [r for _, r in subs]
+    if tag in ("Prod", "mul", "Zip", "add", "ZipL"):
+        if len(set(keys)) != len(keys):
+            raise RefError("duplicate keys")
+    if tag in ("Prod", "mul"):
+        return keys, [sum(combo, ()) for combo in itertools.product(*rowsets)]
+    if tag in ("Zip", "add"):
+        if not rowsets:
+            return keys, []
+        return keys, [sum(combo, ()) for combo in zip(*rowsets)]
+    if tag == "ZipL":
+        if any(len(r) == 0 for r in rowsets):
+            raise RefError("ZipLongest of an empty sweep")
+        n = max((len(r) for r in rowsets), default=0)
+        return keys, [sum((r[min(i, len(r) - 1)] for r in rowsets), ()) for i in range(n)]
+    if tag == "Cat":
+        if not subs:
+            raise RefError("Concat of nothing")
+        k0 = subs[0][0]
+        either = False
+        for ks, _ in subs[1:]:
+            if sorted(ks) != sorted(k0):
+                raise RefError("Concat of sweeps with different keys")
+            if ks != k0:
+                either = True
+        if either:
+            raise RefEither("Concat of sweeps with the same keys in a different order")
+        return k0, [r for rs in rowsets for r in rs]
+    raise core.HarnessError(f"bad sweep term {t}")
+
+
+def term_str(t):
+    tag = t[0]
+    if tag == "U":
+        return "UnitSweep"
+    if tag == "P":
+        return f"Points('{t[1]}',{PVALS[t[1]][:t[2]]})"
+    if tag == "Ps":
+        return f"Points(Symbol('{t[1]}'),{tuple(PVALS[t[1]][:t[2]])})"
+    if tag == "L":
+        return f"Linspace('{t[1]}',0,1,{t[2]})"
+    if tag == "Lg":
+        return f"Linspace('{t[1]}',{_gen_start()},{_gen_start() + 1.3},{t[2]})"
+    if tag == "LS":
+        return f"ListSweep({ls_def(t[1])})"
+    if tag == "add":
+        return f"({term_str(t[1])} + {term_str(t[2])})"
+    if tag == "mul":
+        return f"({term_str(t[1])} * {term_str(t[2])})"
+    name = {"Prod": "Product", "Zip": "Zip", "ZipL": "ZipLongest", "Cat": "Concat"}[tag]
+    return f"{name}({', '.join(term_str(x) for x in t[1:])})"
+
+
+def _norm_row(d):
+    out = {}
+    for k, v in d.items():
+        out[k.name if isinstance(k, sympy.Symbol) else k] = v
+    return out
+
+
+def _row_matches(resolver, row):
+    if not isinstance(resolver, cirq.ParamResolver):
+        return False
+    got = _norm_row(resolver.param_dict)
+    ref = dict(row)
+    if set(got) != set(ref):
+        return False
+    return all(isinstance(got[k], (int, float)) and abs(got[k] - ref[k]) <= 1e-12 for k in ref)
+
+
+def _rows_match(resolvers, rows):
+    resolvers = list(resolvers)
+    if len(resolvers) != len(rows):
+        return f"{len(resolvers)} assignments, reference has {len(rows)}"
+    for i, (r, row) in enumerate(zip(resolvers, rows)):
+        if not _row_matches(r, row):
+            return f"assignment #{i} is {r!r}, reference {dict(row)}"
+    return None
+
+
+def _has_add_of_ziplongest(t):
+    if t[0] in COMB:
+        if t[0] == "add" and any(x[0] == "ZipL" and len(x) > 2 for x in t[1:]):
+            return True
+        return any(_has_add_of_ziplongest(x) for x in t[1:])
+    return False
+
+
+_POOL = []
+
+
+def _eq_pool():
+    if not _POOL:
+        for t in sweep_leaves() + [("Prod",), ("Zip",), ("ZipL",)]:
+            _POOL.append((t, build_sweep(t), ref_sweep(t)))
+        red = reduced_leaves()
+        for c in COMB:
+            for x in red:
+                for y in red:
+                    t = (c, x, y)
+                    try:
+                        r = ref_sweep(t)
+                    except (RefError, RefEither):
+                        continue
+                    try:
+                        _POOL.append((t, build_sweep(t), r))
+                    except ValueError:
+                        continue
+    return _POOL
+
+
+def _canon_rows(rows):
+    return [tuple(sorted((k, round(v, 12)) for k, v in r)) for r in rows]
+
+
+def run_sweep_term(case):
+    t, level = case
+    desc = term_str(t)
+    skind = "add_flattens_ziplongest" if _has_add_of_ziplongest(t) else "sweep"
+    either = False
+    try:
+        keys, rows = ref_sweep(t)
+        ref_err = None
+    except RefError as e:
+        ref_err = str(e)
+    except RefEither:
+        either = True
+        ref_err = None
+    try:
+        s = build_sweep(t)
+    except ValueError as e:
+        if ref_err is not None or either:
+            return good(nontrivial=True, rejected=1)
+        return bad(f"{desc}: construction raised ValueError({e}) but the term is well-defined: keys {keys}, {len(rows)} assignments", kind=skind)
+    if ref_err is not None:
+        return bad(f"{desc}: accepted (-> {s!r}) but must be rejected with ValueError: {ref_err}", kind=skind)
+    if either:
+        return Res(skipped=True, nontrivial=False)
+    n = len(rows)
+    if len(s) != n:
+        return bad(f"{desc}: len() = {len(s)}, reference has {n} assignments {[dict(r) for r in rows][:6]}; list() gives {list(s)[:6]}", kind=skind)
+    m = _rows_match(list(s), rows)
+    if m:
+        return bad(f"{desc}: list(): {m}", kind=skind)
+    m = _rows_match(list(s), rows)  # second iteration gives the same (no one-shot iterators)
+    if m:
+        return bad(f"{desc}: second iteration: {m}", kind=skind)
+    got_keys = [k.name if isinstance(k, sympy.Symbol) else k for k in s.keys]
+    if sorted(got_keys) != sorted(keys):
+        return bad(f"{desc}: keys = {s.keys}, reference {keys}", kind=skind)
+    pts = list(s.param_tuples())
+    if len(pts) != n:
+        return bad(f"{desc}: param_tuples() has {len(pts)} entries, reference {n}", kind=skind)
+    for i, (pt, row) in enumerate(zip(pts, rows)):
+        pt = tuple(pt)
+        if len(pt) != len(row) or not _row_matches(cirq.ParamResolver(dict(pt)), row):
+            return bad(f"{desc}: param_tuples()[{i}] = {pt}, reference {row}", kind=skind)
+    for i in range(-n - 1, n + 1):
+        try:
+            r = s[i]
+        except IndexError:
+            if -n <= i < n:
+                return bad(f"{desc}: s[{i}] raised IndexError, len is {n}", kind=skind)
+            continue
+        if not (-n <= i < n):
+            return bad(f"{desc}: s[{i}] returned {r!r} but len is {n} (IndexError expected)", kind=skind)
+        if not _row_matches(r, rows[i]):
+            return bad(f"{desc}: s[{i}] = {r!r}, reference {dict(rows[i])}", kind=skind)
+    ab = [None, 0, 1, -1, n]
+    steps = [None, 1, 2, -1] if level >= 1 else [None, -1]
+    if level == 0:
+        ab = [None, 1, -1]
+    nsl = 0
+    for lo in ab:
+        for hi in ab:
+            for st in steps:
+                sl = slice(lo, hi, st)
+                sub = s[sl]
+                if not isinstance(sub, cirq.Sweep):
+                    return bad(f"{desc}: s[{sl}] is {sub!r}, not a Sweep", kind=skind)
+                refrows = rows[sl]
+                if len(sub) != len(refrows):
+                    return bad(f"{desc}: len(s[{sl}]) = {len(sub)}, reference {len(refrows)}", kind=skind)
+                m = _rows_match(list(sub), refrows)
+                if m:
+                    return bad(f"{desc}: s[{sl}]: {m}", kind=skind)
+                nsl += 1
+    # == / != / hash
+    s2 = build_sweep(t)
+    if not (s == s2) or (s != s2):
+        return bad(f"{desc}: not equal to an identically constructed sweep", kind="sweep_eq")
+    try:
+        h1, h2 = hash(s), hash(s2)
+    except TypeError:
+        h1 = h2 = None
+    if h1 != h2:
+        return bad(f"{desc}: equal sweeps with different hashes", kind="sweep_eq")
+    canon = _canon_rows(rows)
+    for pt, p, (_, prow) in _eq_pool():
+        e1, e2 = (s == p), (p == s)
+        if e1 is NotImplemented or e2 is NotImplemented or bool(e1) != bool(e2):
+            return bad(f"{desc} == {term_str(pt)}: asymmetric ({e1} vs {e2})", kind="sweep_eq")
+        if bool(s != p) == bool(e1):
+            return bad(f"{desc} vs {term_str(pt)}: == gives {e1} and != gives {s != p}", kind="sweep_eq")
+        if e1:
+            if canon != _canon_rows(prow):
+                return bad(f"{desc} == {term_str(pt)} is True but they enumerate different assignments", kind="sweep_eq")
+            if h1 is not None:
+                try:
+                    if hash(p) != h1:
+                        return bad(f"{desc} == {term_str(pt)} but hashes differ", kind="sweep_eq")
+                except TypeError:
+                    pass
+    return good(nontrivial=t[0] in COMB and n >= 1, assignments=n, slices=nsl)
+
+
+def describe_sweep_term(case):
+    return {"sweep": term_str(case[0]), "slice_level": case[1]}
+
+
+def sweep_leaves():
+    return [("U",), ("P", "x", 0), ("P", "x", 1), ("P", "x", 3), ("P", "y", 1), ("P", "y", 3), ("Ps", "z", 3),
+            ("L", "x", 1), ("L", "x", 2), ("L", "x", 3), ("L", "y", 2), ("Lg", "z", 3),
+            ("LS", 0), ("LS", 1), ("LS", 2), ("LS", 3)]
+
+
+def reduced_leaves():
+    return [("U",), ("P", "x", 0), ("P", "x", 1), ("P", "x", 3), ("P", "y", 3), ("L", "y", 2), ("L", "z", 2), ("LS", 2)]
+
+
+def _valid(t):
+    try:
+        ref_sweep(t)
+        return True
+    except (RefError, RefEither):
+        return False
+
+
+def sweep_term_cases(tier):
+    leaves = sweep_leaves()
+    red = reduced_leaves()
+    cases = [(t, 2) for t in leaves]
+    d2 = []
+    for c in ("Prod", "Zip", "ZipL", "Cat"):
+        d2.append((c,))
+        for x in leaves:
+            d2.append((c, x))
+    for c in COMB:
+        for x in leaves:
+            for y in leaves:
+                d2.append((c, x, y))
+    for c in ("Prod", "Zip", "ZipL", "Cat"):
+        for x in red:
+            for y in red:
+                for z in red:
+                    d2.append((c, x, y, z))
+    cases += [(t, 2) for t in d2]
+    # depth 3: binary combinators of a valid depth-2 binary term with a reduced leaf (both orders) ...
+    base2 = [t for t in d2 if len(t) == 3 and _valid(t) and (tier == "thorough" or (t[1] in red and t[2] in red))]
+    d3 = []
+    for c in COMB:
+        for t2 in base2:
+            for l in red:
+                d3.append((c, t2, l))
+                d3.append((c, l, t2))
+    # ... and of two valid depth-2 terms over the 4 core leaves
+    core4 = [("P", "x", 1), ("P", "x", 3), ("P", "y", 3), ("L", "z", 2)]
+    b4 = [(c, x, y) for c in COMB for x in core4 for y in core4 if _valid((c, x, y))]
+    for c in COMB:
+        for t1 in b4:
+            for t2 in b4:
+                d3.append((c, t1, t2))
+    cases += [(t, 1 if tier == "thorough" else 0) for t in d3]
+    return cases
+
+
+# Sweepable forms ----------------------------------------------------------------------------------
+
+def res_def(i):
+    return [{}, {"x": 0.5}, {"x": 0.5, "y": 2}, {SX: 1.5}][i]
+
+
+def dict_def(i):
+    return [{}, {"x": 0.5}, {"x": [1.0, 2.0], "y": 3.0}, {"x": (1.0, 2.0), "y": [3.0]}, {SX: 1.0, "y": 2.0}][i]
+
+
+SW_TERMS = [("U",), ("P", "x", 3), ("P", "x", 0), ("Prod", ("P", "x", 3), ("L", "y", 2)), ("Zip", ("P", "x", 3), ("L", "y", 2)), ("LS", 2)]
+
+
+def build_form(f):
+    tag = f[0]
+    if tag == "none":
+        return None
+    if tag == "res":
+        return cirq.ParamResolver(res_def(f[1]))
+    if tag == "dict":
+        return dict(dict_def(f[1]))
+    if tag == "sw":
+        return build_sweep(SW_TERMS[f[1]])
+    items = [build_form(x) for x in f[1:]]
+    if tag == "list":
+        return items
+    if tag == "tuple":
+        return tuple(items)
+    if tag == "gen":
+        return (x for x in items)
+    raise core.HarnessError(str(f))
+
+
+def ref_form(f):
+    tag = f[0]
+    if tag == "none":
+        return [()]
+    if tag == "res":
+        return [tuple(_norm_row(res_def(f[1])).items())]
+    if tag == "dict":
+        d = _norm_row(dict_def(f[1]))
+        cols = [[(k, x) for x in (v if isinstance(v, (list, tuple)) else [v])] for k, v in d.items()]
+        return [tuple(c) for c in itertools.product(*cols)]
+    if tag == "sw":
+        return ref_sweep(SW_TERMS[f[1]])[1]
+    return [r for x in f[1:] for r in ref_form(x)]
+
+
+def form_str(f):
+    tag = f[0]
+    if tag == "none":
+        return "None"
+    if tag == "res":
+        return f"ParamResolver({res_def(f[1])})"
+    if tag == "dict":
+        return repr(dict_def(f[1]))
+    if tag == "sw":
+        return term_str(SW_TERMS[f[1]])
+    inner = ", ".join(form_str(x) for x in f[1:])
+    return {"list": f"[{inner}]", "tuple": f"({inner},)", "gen": f"(x for x in [{inner}])"}[tag]
+
+
+def _to_sweep_ok(f, top=True):
+    """Forms cirq.to_sweep documents: a Sweep, a resolver / dict of scalars, or an iterable of those."""
+    tag = f[0]
+    if tag == "sw":
+        return top
+    if tag == "res":
+        return True
+    if tag == "dict":
+        return not any(isinstance(v, (list, tuple)) for v in dict_def(f[1]).values())
+    if tag in ("list", "tuple", "gen") and top:
+        return all(x[0] in ("res", "dict") and _to_sweep_ok(x, False) for x in f[1:])
+    return False
+
+
+def run_sweepable(case):
+    f = case
+    rows = ref_form(f)
+    desc = form_str(f)
+    with warnings.catch_warnings():
+        warnings.simplefilter("ignore")
+        got = list(cirq.to_resolvers(build_form(f)))
+        m = _rows_match(got, rows)
+        if m:
+            return bad(f"to_resolvers({desc}): {m}", kind="sweepable")
+        sw = cirq.to_sweeps(build_form(f))
+        if not isinstance(sw, list) or not all(isinstance(x, cirq.Sweep) for x in sw):
+            return bad(f"to_sweeps({desc}) = {sw!r} is not a list of Sweeps", kind="sweepable")
+        m = _rows_match([r for x in sw for r in x], rows)
+        if m:
+            return bad(f"to_sweeps({desc}) = {sw!r}: {m}", kind="sweepable")
+        if sum(len(x) for x in sw) != len(rows):
+            return bad(f"to_sweeps({desc}) = {sw!r}: total len {sum(len(x) for x in sw)} != {len(rows)}", kind="sweepable")
+        if _to_sweep_ok(f):
+            one = cirq.to_sweep(build_form(f))
+            if not isinstance(one, cirq.Sweep):
+                return bad(f"to_sweep({desc}) = {one!r} is not a Sweep", kind="sweepable")
+            m = _rows_match(list(one), rows)
+            if m or len(one) != len(rows):
+                return bad(f"to_sweep({desc}) = {one!r}: {m or 'wrong len'}", kind="sweepable")
+    return good(nontrivial=len(rows) >= 1 and f[0] != "none")
+
+
+def sweepable_cases(tier):
+    base = [("none",)] + [("res", i) for i in range(4)] + [("dict", i) for i in range(5)] + [("sw", i) for i in range(len(SW_TERMS))]
+    out = list(base)
+    out.append(("list",))
+    for x in base:
+        out.append(("list", x))
+        out.append(("gen", x))
+        for y in base:
+            out.append(("list", x, y))
+    small = [("none",), ("res", 2), ("dict", 2), ("sw", 3), ("dict", 1)]
+    for x in small:
+        for y in small:
+            out.append(("tuple", x, y))
+            out.append(("gen", x, y))
+            for z in small:
+                out.append(("list", x, ("list", y, z)))
+                out.append(("list", ("tuple", x, y), z))
+    return out
+
+
+DV = [None, 1.5, [0.25], [0.1, 0.2, 0.3], (0.4, 0.5), []]
+
+
+def run_dict_to_sweep(case):
+    vx, vy, vz, kf, fn = case
+    d = {}
+    for name, vi in zip("xyz", (vx, vy, vz)):
+        if vi:
+            d[sympy.Symbol(name) if kf and name != "y" else name] = DV[vi]
+    cols = [[(name, v) for v in (DV[vi] if isinstance(DV[vi], (list, tuple)) else [DV[vi]])] for name, vi in zip("xyz", (vx, vy, vz)) if vi]
+    if fn == 0:
+        rows = [tuple(c) for c in itertools.product(*cols)]
+        s = cirq.dict_to_product_sweep(d)
+        name = "dict_to_product_sweep"
+    else:
+        rows = [tuple(c) for c in zip(*cols)] if cols else []
+        s = cirq.dict_to_zip_sweep(d)
+        name = "dict_to_zip_sweep"
+    if len(s) != len(rows):
+        return bad(f"{name}({d}) = {s!r}: len {len(s)}, reference {len(rows)}", kind="dict_to_sweep")
+    m = _rows_match(list(s), rows)
+    if m:
+        return bad(f"{name}({d}) = {s!r}: {m}", kind="dict_to_sweep")
+    return good(nontrivial=len(cols) >= 1)
+
+
+def dict_to_sweep_cases(tier):
+    return [(vx, vy, vz, kf, fn) for vx in range(6) for vy in range(6) for vz in range(6) for kf in (0, 1) for fn in (0, 1)]
+
+
+LD = [{"x": 0.5}, {"x": 0.6, "y": 1.5}, {"y": 2.5, "x": 0.7}, {"x": 0.8, "y": 3.5, "z": 4.5}]
+
+
+def run_list_of_dicts(case):
+    dicts = [dict(LD[i]) for i in case]
+    ok = len(dicts) >= 1 and all(set(d) == set(dicts[0]) for d in dicts)
+    try:
+        s = cirq.list_of_dicts_to_zip(dicts)
+    except ValueError:
+        if ok:
+            return bad(f"list_of_dicts_to_zip({dicts}) raised ValueError on a consistent list", kind="list_of_dicts")
+        return good(nontrivial=True, rejected=1)
+    if not ok:
+        return bad(f"list_of_dicts_to_zip({dicts}) = {s!r}: accepted an empty list / inconsistent keys (ValueError documented)", kind="list_of_dicts")
+    m = _rows_match(list(s), [tuple(d.items()) for d in dicts])
+    if m or len(s) != len(dicts):
+        return bad(f"list_of_dicts_to_zip({dicts}) = {s!r}: {m or 'wrong len'}", kind="list_of_dicts")
+    return good(nontrivial=len(dicts) >= 2)
+
+
+def list_of_dicts_cases(tier):
+    out = [()]
+    for n in (1, 2, 3):
+        out += list(itertools.product(range(len(LD)), repeat=n))
+    return out
+
+
+# ---------------------------------------------------------------------------------------------
+# stage (b): parameterized objects
+
+Q0, Q1, Q2 = cirq.LineQubit.range(3)
+QS = [Q0, Q1, Q2]
+SM = sympy.Symbol("m")
+PEXPR = [SA, 2 * SA + SB, SA ** 2, SA * PI]
+PEXPR_NAMES = ["a", "2*a+b", "a**2", "a*pi"]
+
+
+def _ph(p):
+    """Unit-modulus coefficient exp(i p)."""
+    return sympy.exp(I * p) if isinstance(p, sympy.Basic) else cmath.exp(1j * p)
+
+
+def _num_tags(tags):
+    out = []
+    for t in tags:
+        out.append(t if isinstance(t, str) else complex(t))
+    return out
+
+
+def obs_u(x):
+    return [np.asarray(cirq.unitary(x))]
+
+
+def obs_circ(x):
+    return [x.unitary(qubit_order=QS)] + _num_tags(x.tags)
+
+
+def obs_in_circuit(x):
+    return [cirq.Circuit(x).unitary(qubit_order=QS)]
+
+
+def obs_tagged(x):
+    return [np.asarray(cirq.unitary(x))] + _num_tags(x.tags)
+
+
+def obs_moment_tags(x):
+    return [cirq.Circuit(x).unitary(qubit_order=QS)] + [t for op in x.operations for t in _num_tags(op.tags)]
+
+
+def obs_matrix(x):
+    return [np.asarray(x.matrix())]
+
+
+def obs_kraus(x):
+    return [np.stack(cirq.kraus(x))]
+
+
+def obs_sim(x):
+    return [cirq.Simulator(seed=1).simulate(x, qubit_order=QS).final_state_vector]
+
+
+def _inner_c(exprs):
+    return [e.xreplace({SA: SC + 1}) for e in exprs]
+
+
+def _inner_swap(exprs):
+    return [e.xreplace({SA: SB, SB: SA}, ) if isinstance(e, sympy.Basic) else e for e in exprs]
+
+
+def families():
+    """(name, number of parameter slots, build(params) -> object, observe, pre = effective expressions)."""
+    X, Y, Z = cirq.X, cirq.Y, cirq.Z
+    F = []
+
+    def add(name, n, build, obs=obs_u, pre=None):
+        F.append((name, n, build, obs, pre))
+
+    for nm, g in [("X", X), ("Y", Y), ("Z", Z), ("H", cirq.H), ("S", cirq.S), ("T", cirq.T)]:
+        add(f"{nm}**p", 1, lambda p, g=g: g(Q0) ** p[0])
+    for nm, g in [("CZ", cirq.CZ), ("CNOT", cirq.CNOT), ("SWAP", cirq.SWAP), ("ISWAP", cirq.ISWAP), ("XX", cirq.XX),
+                  ("YY", cirq.YY), ("ZZ", cirq.ZZ)]:
+        add(f"{nm}**p", 1, lambda p, g=g: g(Q0, Q1) ** p[0])
+    for nm, g in [("CCZ", cirq.CCZ), ("CCX", cirq.CCX)]:
+        add(f"{nm}**p", 1, lambda p, g=g: g(Q0, Q1, Q2) ** p[0])
+    add("ZPowGate(p,global_shift=-0.5)", 1, lambda p: cirq.ZPowGate(exponent=p[0], global_shift=-0.5).on(Q0))
+    add("XPowGate(p,global_shift=0.25)", 1, lambda p: cirq.XPowGate(exponent=p[0], global_shift=0.25).on(Q0))
+    add("CZPowGate(p,global_shift=0.5)", 1, lambda p: cirq.CZPowGate(exponent=p[0], global_shift=0.5).on(Q0, Q1))
+    add("rx(p)", 1, lambda p: cirq.rx(p[0]).on(Q0))
+    add("ry(p)", 1, lambda p: cirq.ry(p[0]).on(Q0))
+    add("rz(p)", 1, lambda p: cirq.rz(p[0]).on(Q0))
+    add("ms(p)", 1, lambda p: cirq.ms(p[0]).on(Q0, Q1))
+    add("PhasedXPowGate(phase_exponent=p0,exponent=p1)", 2, lambda p: cirq.PhasedXPowGate(phase_exponent=p[0], exponent=p[1]).on(Q0))
+    add("PhasedXZGate(x=p0,z=p1,axis=p2)", 3, lambda p: cirq.PhasedXZGate(x_exponent=p[0], z_exponent=p[1], axis_phase_exponent=p[2]).on(Q0))
+    add("PhasedISwapPowGate(phase_exponent=p0,exponent=p1)", 2, lambda p: cirq.PhasedISwapPowGate(phase_exponent=p[0], exponent=p[1]).on(Q0, Q1))
+    add("PhasedXPowGate(phase_exponent=p0,exponent=p1,global_shift=0.3)", 2, lambda p: cirq.PhasedXPowGate(phase_exponent=p[0], exponent=p[1], global_shift=0.3).on(Q0))
+    add("PhasedISwapPowGate(phase_exponent=p0,exponent=p1,global_shift=0.3)", 2, lambda p: cirq.PhasedISwapPowGate(phase_exponent=p[0], exponent=p[1], global_shift=0.3).on(Q0, Q1))
+    for nm, g in [("YPowGate", cirq.YPowGate), ("HPowGate", cirq.HPowGate)]:
+        add(f"{nm}(p,global_shift=-0.25)", 1, lambda p, g=g: g(exponent=p[0], global_shift=-0.25).on(Q0))
+    for nm, g in [("CXPowGate", cirq.CXPowGate), ("SwapPowGate", cirq.SwapPowGate), ("ISwapPowGate", cirq.ISwapPowGate),
+                  ("XXPowGate", cirq.XXPowGate), ("YYPowGate", cirq.YYPowGate), ("ZZPowGate", cirq.ZZPowGate)]:
+        add(f"{nm}(p,global_shift=0.4)", 1, lambda p, g=g: g(exponent=p[0], global_shift=0.4).on(Q0, Q1))
+    for nm, g in [("CCZPowGate", cirq.CCZPowGate), ("CCXPowGate", cirq.CCXPowGate)]:
+        add(f"{nm}(p,global_shift=0.4)", 1, lambda p, g=g: g(exponent=p[0], global_shift=0.4).on(Q0, Q1, Q2))
+    add("PhaseGradientGate(exponent=p) on 3 qubits", 1, lambda p: cirq.PhaseGradientGate(num_qubits=3, exponent=p[0]).on(Q0, Q1, Q2))
+    add("FSimGate(p0,p1)", 2, lambda p: cirq.FSimGate(theta=p[0], phi=p[1]).on(Q0, Q1))
+    add("PhasedFSimGate(p0..p4)", 5, lambda p: cirq.PhasedFSimGate(theta=p[0], zeta=p[1], chi=p[2], gamma=p[3], phi=p[4]).on(Q0, Q1))
+    add("GlobalPhaseGate(exp(i p))", 1, lambda p: cirq.global_phase_operation(_ph(p[0])))
+    add("DiagonalGate([p0,p1])", 2, lambda p: cirq.DiagonalGate([p[0], p[1]]).on(Q0))
+    add("TwoQubitDiagonalGate([p0,p1,0.3,p0])", 2, lambda p: cirq.TwoQubitDiagonalGate([p[0], p[1], 0.3, p[0]]).on(Q0, Q1))
+    add("ThreeQubitDiagonalGate", 2, lambda p: cirq.ThreeQubitDiagonalGate([p[0], p[1], 0.3, p[0], 0, 0.1, 0, p[1]]).on(Q0, Q1, Q2))
+    add("PhaseGradientGate(exponent=p)", 1, lambda p: cirq.PhaseGradientGate(num_qubits=2, exponent=p[0]).on(Q0, Q1))
+    add("ControlledGate(Y**p)", 1, lambda p: cirq.ControlledGate(Y ** p[0], control_values=[0]).on(Q0, Q1))
+    add("(Y**p).controlled_by", 1, lambda p: (Y(Q1) ** p[0]).controlled_by(Q0, Q2))
+    add("ParallelGate(X**p,2)", 1, lambda p: cirq.ParallelGate(X ** p[0], 2).on(Q0, Q1))
+    add("PauliStringPhasor(neg=p0,pos=p1)", 2, lambda p: cirq.PauliStringPhasor(X(Q0) * Z(Q1), exponent_neg=p[0], exponent_pos=p[1]))
+    add("PauliStringPhasorGate(neg=p0,pos=p1)", 2, lambda p: cirq.PauliStringPhasorGate(cirq.DensePauliString("XZ"), exponent_neg=p[0], exponent_pos=p[1]).on(Q0, Q1))
+    add("DensePauliString(coefficient=exp(i p))", 1, lambda p: cirq.DensePauliString("XZ", coefficient=_ph(p[0])).on(Q0, Q1))
+    add("PauliString(coefficient=p)", 1, lambda p: cirq.PauliString({Q0: X, Q1: Z}, coefficient=p[0]), obs_matrix)
+    add("PauliSumExponential(exponent=p)", 1, lambda p: cirq.PauliSumExponential(X(Q0) * X(Q1) + Z(Q0) * Z(Q1), exponent=p[0]), obs_matrix)
+    add("LinearCombinationOfGates({X**p0: p1, Z: 0.5})", 2, lambda p: cirq.LinearCombinationOfGates({X ** p[0]: p[1], Z: 0.5}), obs_matrix)
+    add("LinearCombinationOfOperations", 2, lambda p: cirq.LinearCombinationOfOperations({X(Q0) ** p[0]: p[1], Z(Q1): 0.5}), obs_matrix)
+    add("LinearDict", 2, lambda p: cirq.LinearDict({"X": p[0], "Y": p[1]}), lambda x: [complex(x["X"]), complex(x["Y"])])
+    add("RandomGateChannel(X**p,0.25)", 1, lambda p: cirq.RandomGateChannel(sub_gate=X ** p[0], probability=0.25).on(Q0), obs_kraus)
+    add("WaitGate(Duration(nanos=p))", 1, lambda p: cirq.wait(Q0, nanos=p[0]), lambda x: [complex(x.gate.duration.total_picos())])
+    add("Duration(nanos=p0,picos=p1)", 2, lambda p: cirq.Duration(nanos=p[0], picos=p[1]), lambda x: [complex(x.total_picos())])
+    add("PeriodicValue(p,2.5)", 1, lambda p: cirq.PeriodicValue(p[0], 2.5), lambda x: [complex(x.value), complex(x.period)])
+    # tags
+    add("(X**p0).with_tags(p1,'a')", 2, lambda p: (X(Q0) ** p[0]).with_tags(p[1], "a"), obs_tagged)
+    add("(X**0.5).with_tags(p0)", 1, lambda p: (X(Q0) ** 0.5).with_tags(p[0]), obs_tagged)
+    # composites
+    add("Moment[X**p0,CZ**p1]", 2, lambda p: cirq.Moment([X(Q0) ** p[0], cirq.CZ(Q1, Q2) ** p[1]]), obs_moment_tags)
+    add("Moment[(X**0.5).with_tags(p0),Y**p1]", 2, lambda p: cirq.Moment([(X(Q0) ** 0.5).with_tags(p[0]), Y(Q1) ** p[1]]), obs_moment_tags)
+    add("Moment[(X**0.5).with_tags(p0),Y]", 1, lambda p: cirq.Moment([(X(Q0) ** 0.5).with_tags(p[0]), Y(Q1)]), obs_moment_tags)
+
+    def circ(p):
+        return cirq.Circuit(cirq.Moment([cirq.H(Q0), Y(Q2) ** 0.3]), cirq.Moment([X(Q0) ** p[0]]), cirq.Moment([cirq.CZ(Q0, Q1) ** p[1], Y(Q2)]))
+
+    add("Circuit", 2, circ, obs_circ)
+    add("FrozenCircuit", 2, lambda p: circ(p).freeze(), obs_circ)
+    add("Circuit.with_tags(p2)", 3, lambda p: circ(p).with_tags(p[2], "a"), obs_circ)
+    add("FrozenCircuit(tags=[p2])", 3, lambda p: cirq.FrozenCircuit(circ(p).moments, tags=[p[2]]), obs_circ)
+    add("Circuit[unparameterized moment + tag p0]", 1, lambda p: cirq.Circuit(cirq.H(Q0), (X(Q1) ** 0.5).with_tags(p[0])), lambda x: obs_circ(x) + [t for op in x.all_operations() for t in _num_tags(op.tags)])
+
+    def sub2(p):
+        return cirq.FrozenCircuit(X(Q0) ** p[0], cirq.CZ(Q0, Q1) ** p[1], Y(Q1) ** 0.25)
+
+    add("CircuitOperation(2q)", 2, lambda p: cirq.CircuitOperation(sub2(p)), obs_in_circuit)
+    add("CircuitOperation(2q,repetitions=2)", 2, lambda p: cirq.CircuitOperation(sub2(p), repetitions=2), obs_in_circuit)
+    add("CircuitOperation(2q,param_resolver={a:c+1})", 2,
+        lambda p: cirq.CircuitOperation(sub2(p), param_resolver={SA: SC + 1}) if any(isinstance(x, sympy.Basic) for x in p) else cirq.CircuitOperation(sub2(p)),
+        obs_in_circuit, _inner_c)
+    add("CircuitOperation(2q,param_resolver={a:b,b:a})", 2,
+        lambda p: cirq.CircuitOperation(sub2(p), param_resolver={SA: SB, SB: SA}) if any(isinstance(x, sympy.Basic) for x in p) else cirq.CircuitOperation(sub2(p)),
+        obs_in_circuit, lambda ex: [e.xreplace({SA: SB, SB: SA}) for e in ex])
+    add("CircuitOperation(2q) inside a Circuit", 2, lambda p: cirq.Circuit(cirq.H(Q0), cirq.CircuitOperation(sub2(p))), obs_circ)
+    add("CircuitOperation(1q)", 1, lambda p: cirq.CircuitOperation(cirq.FrozenCircuit(X(Q0) ** p[0], Y(Q0) ** 0.25)), obs_u)
+    add("CircuitOperation[PhasedFSimGate]", 2, lambda p: cirq.CircuitOperation(cirq.FrozenCircuit(cirq.PhasedFSimGate(theta=p[0], zeta=0.1, chi=0.2, gamma=p[1], phi=0.3).on(Q0, Q1))), obs_in_circuit)
+    add("classically controlled X**p on Eq(m,1)", 1,
+        lambda p: cirq.Circuit(X(Q0), cirq.measure(Q0, key="m"), (X(Q1) ** p[0]).with_classical_controls(sympy.Eq(SM, 1)), cirq.H(Q2)), obs_sim)
+    add("classically controlled op", 1, lambda p: (X(Q1) ** p[0]).with_classical_controls(sympy.Eq(SM, 1)),
+        lambda x: [np.asarray(cirq.unitary(x.without_classical_controls())), str(sorted(str(k) for k in cirq.control_keys(x))), repr(x.classical_controls)])
+    return F
+
+
+_FAMS = []
+
+
+def obj_resolvers():
+    g0 = abs(core.generic(_SEED, 0)) + 0.11
+    g1 = abs(core.generic(_SEED, 1)) + 0.07
+    return [
+        ("full,str keys", {"a": g0, "b": g1, "m": 0.0}, True),
+        ("full,Symbol keys,int+np.float64", {SA: 2, SB: np.float64(0.5), SM: 0.0}, True),
+        ("chain a->b->number", {"a": SB, "b": g1, "m": 0.0}, True),
+        ("chain a->b->number, recursive=False", {"a": SB, "b": g1, "m": 0.0}, False),
+        ("partial a", {"a": g0, "m": 0.0}, True),
+        ("partial b,Symbol key", {SB: g1}, True),
+        ("a->'b'", {"a": "b", "b": g1}, True),
+        ("a->b+1", {"a": SB + 1, "b": g1, "m": 0.0}, True),
+        ("unrelated only", {"c": 1.0, "m": 0.0}, True),
+        ("identity a->a", {SA: SA, "b": g1}, True),
+        ("full, recursive=False", {"a": g0, "b": g1, "m": 0.0}, False),
+    ]
+
+
+def _ref_of_dict(d):
+    m = {}
+    for k, v in d.items():
+        k = sympy.Symbol(k) if isinstance(k, str) else k
+        if isinstance(v, str):
+            v = sympy.Symbol(v)
+        elif not isinstance(v, sympy.Basic):
+            v = sympy.Float(float(v))
+        m[k] = v
+    return RefMap(m)
+
+
+def _complete():
+    h = [abs(core.generic(_SEED, 2)) + 0.05, abs(core.generic(_SEED, 3)) + 0.21, abs(core.generic(_SEED, 4)) + 0.13]
+    return {"a": h[0], "b": h[1], "c": h[2]}
+
+
+def _obs_equal(x, y):
+    if len(x) != len(y):
+        return f"{len(x)} vs {len(y)} observables"
+    for u, v in zip(x, y):
+        if isinstance(u, str) or isinstance(v, str):
+            if u != v:
+                return f"{u!r} vs {v!r}"
+        else:
+            u, v = np.asarray(u), np.asarray(v)
+            if u.shape != v.shape or not np.allclose(u, v, atol=1e-8):
+                return f"{np.round(u, 6).tolist()} vs reference {np.round(v, 6).tolist()}"
+    return None
+
+
+def slot_assignments(n):
+    k = len(PEXPR)
+    if n <= 2:
+        return list(itertools.product(range(k), repeat=n))
+    out = [tuple((i + r) % k for i in range(n)) for r in range(k)] + [tuple([r] * n) for r in range(k)]
+    return out
+
+
+def run_object(case):
+    fi, pa, ri = case
+    name, nslots, build, observe, pre = _FAMS[fi]
+    rname, rdict, recursive = obj_resolvers()[ri]
+    exprs = [PEXPR[i] for i in pa]
+    eff = pre(exprs) if pre else exprs
+    rm = _ref_of_dict(rdict)
+    what = f"{name} with p={[PEXPR_NAMES[i] for i in pa]}"
+    fam = {"family": name}
+    x = build(exprs)
+    issues = []  # (kind, message); the first one names the violation, later checks still run where they can
+
+    def done():
+        if issues:
+            return bad(" || ".join(m for _, m in issues), kind=issues[0][0], **fam)
+        return None
+
+    names0 = {s.name for e in eff for s in e.free_symbols}
+    got0 = set(cirq.parameter_names(x))
+    if got0 != names0:
+        issues.append(("parameter_names", f"parameter_names({what}) = {sorted(got0)}, free symbols are {sorted(names0)}"))
+    if not cirq.is_parameterized(x):
+        issues.append(("is_parameterized", f"is_parameterized({what}) is False, free symbols are {sorted(names0)}"))
+    resolver = cirq.ParamResolver(dict(rdict))
+    call = f"resolve_parameters({what}, {rdict}, recursive={recursive})"
+    try:
+        y = cirq.resolve_parameters(x, resolver, recursive)
+    except Exception as ex:  # noqa
+        kind = "pow_numeric_base_symbolic_exponent" if isinstance(ex, TypeError) and "float_power" in str(ex) else "resolve_exception"
+        issues.append((kind, f"{call} raised {type(ex).__name__}: {ex}"))
+        return done()
+    refs = []
+    for e in eff:
+        if recursive:
+            r, _ = rm.fix(e)
+            if r is None:
+                raise core.HarnessError("cycle in object resolver")
+        else:
+            r = rm.once(e)
+        refs.append(r)
+    names1 = {s.name for r in refs for s in r.free_symbols}
+    got1 = set(cirq.parameter_names(y))
+    if got1 != names1:
+        issues.append(("parameter_names_after", f"parameter_names({call}) = {sorted(got1)}, ordinary substitution leaves {sorted(names1)} (parameters become {refs})"))
+    if bool(cirq.is_parameterized(y)) != bool(names1):
+        issues.append(("is_parameterized_after", f"is_parameterized({call}) = {cirq.is_parameterized(y)}, ordinary substitution leaves {sorted(names1)}"))
+    if names1:
+        comp = _complete()
+        try:
+            y2 = cirq.resolve_parameters(y, comp, True)
+        except Exception as ex:  # noqa
+            issues.append(("resolve_exception", f"{call} = {y!r}; resolving the rest with {comp} raised {type(ex).__name__}: {ex}"))
+            return done()
+        cm = {sympy.Symbol(k): sympy.Float(v) for k, v in comp.items()}
+        refs = [r.xreplace(cm) for r in refs]
+        if cirq.is_parameterized(y2):
+            issues.append(("is_parameterized_after", f"{call} then {comp}: still parameterized: {y2!r}"))
+    else:
+        y2 = y
+    nums = []
+    for r in refs:
+        v = nev(r, {})
+        if abs(v.imag) > 1e-12:
+            raise core.HarnessError(f"complex parameter {v}")
+        nums.append(v.real)
+    z = build(nums)
+    oz = observe(z)
+    try:
+        oy = observe(y2)
+    except Exception as ex:  # noqa
+        issues.append(("observe_exception", f"{call} -> {y2!r}: observing it raised {type(ex).__name__}: {str(ex)[:300]} (the object rebuilt from numbers {nums} is fine)"))
+        return done()
+    m = _obs_equal(oy, oz)
+    if m:
+        issues.append(("object_value", f"{call} (then completed) -> {y2!r} differs from the object rebuilt from substituted numbers {nums}: {m}"))
+    if issues:
+        return done()
+    touched = any(rm.touches(e) for e in eff)
+    return good(nontrivial=touched)
+
+
+def describe_object(case):
+    fi, pa, ri = case
+    return {"family": _FAMS[fi][0], "params": [PEXPR_NAMES[i] for i in pa], "resolver": obj_resolvers()[ri][0]}
+
+
+def object_cases(tier):
+    out = []
+    nres = len(obj_resolvers())
+    for fi, f in enumerate(_FAMS):
+        for pa in slot_assignments(f[1]):
+            for ri in range(nres):
+                out.append((fi, pa, ri))
+    return out
+
+
+# ---------------------------------------------------------------------------------------------
+# stage (d): simulate_sweep / run_sweep == per-resolver simulation == substituted circuit
+
+def sim_letters():
+    """(name, build(a, b) -> op, parameterized?)"""
+    return [
+        ("H(q0)", lambda a, b: cirq.H(Q0), False),
+        ("CNOT(q0,q1)", lambda a, b: cirq.CNOT(Q0, Q1), False),
+        ("X(q1)**0.3", lambda a, b: cirq.X(Q1) ** 0.3, False),
+        ("X(q0)**a", lambda a, b: cirq.X(Q0) ** a, True),
+        ("Z(q1)**(2a+b)", lambda a, b: cirq.Z(Q1) ** (2 * a + b), True),
+        ("CZ(q0,q1)**b", lambda a, b: cirq.CZ(Q0, Q1) ** b, True),
+        ("rx(a*pi)(q1)", lambda a, b: cirq.rx(a * (PI if isinstance(a, sympy.Basic) else math.pi)).on(Q1), True),
+        ("(Y(q0)**0.5).with_tags(a)", lambda a, b: (cirq.Y(Q0) ** 0.5).with_tags(a), True),
+    ]
+
+
+SIMS = ["Simulator", "Simulator(split_untangled_states=False)", "DensityMatrixSimulator", "Simulator initial_state=2"]
+
+
+def _make_sim(si):
+    if si in (0, 3):
+        return cirq.Simulator(dtype=np.complex128, seed=11)
+    if si == 1:
+        return cirq.Simulator(dtype=np.complex128, seed=11, split_untangled_states=False)
+    return cirq.DensityMatrixSimulator(dtype=np.complex128, seed=11)
+
+
+def _sim_sweep():
+    g = abs(core.generic(_SEED, 0)) + 0.1
+    return cirq.Product(cirq.Points("a", [g, 0.5]), cirq.Linspace("b", 0, 1, 2)), [(g, 0.0), (g, 1.0), (0.5, 0.0), (0.5, 1.0)]
+
+
+def _mk_circuit(seq, layout, a, b):
+    L = sim_letters()
+    ops = [L[i][1](a, b) for i in seq]
+    return cirq.Circuit([cirq.Moment(o) for o in ops]) if layout == 0 else cirq.Circuit(ops)
+
+
+def run_sim_sweep(case):
+    seq, layout, si = case
+    L = sim_letters()
+    circ = _mk_circuit(seq, layout, SA, SB)
+    sweep, pts = _sim_sweep()
+    sim = _make_sim(si)
+    init = 2 if si == 3 else 0
+    desc = f"{SIMS[si]}.simulate_sweep(Circuit({[L[i][0] for i in seq]}, {'one op per moment' if layout == 0 else 'packed'}), {sweep!r})"
+    prefix_len = 0
+    for i in seq:
+        if L[i][2]:
+            break
+        prefix_len += 1
+    kw = {"initial_state": init} if init else {}
+    results = sim.simulate_sweep(circ, sweep, qubit_order=[Q0, Q1], **kw)
+    if len(results) != len(pts):
+        return bad(f"{desc}: {len(results)} results for {len(pts)} assignments", kind="simulate_sweep")
+
+    def state_of(res):
+        if si == 2:
+            return np.asarray(res.final_density_matrix)
+        psi = np.asarray(res.final_state_vector)
+        return np.outer(psi, psi.conj())
+
+    for i, (av, bv) in enumerate(pts):
+        ref_circ = _mk_circuit(seq, layout, av, bv)
+        u = ref_circ.unitary(qubit_order=[Q0, Q1])
+        psi = u[:, init]
+        rho = np.outer(psi, psi.conj())
+        got = state_of(results[i])
+        pd = _norm_row(results[i].params.param_dict)
+        if set(pd) != {"a", "b"} or abs(pd["a"] - av) > 1e-12 or abs(pd["b"] - bv) > 1e-12:
+            return bad(f"{desc}: result #{i} carries params {results[i].params!r}, assignment #{i} is a={av}, b={bv}", kind="simulate_sweep")
+        if not np.allclose(got, rho, atol=1e-8):
+            return bad(f"{desc}: result #{i} (a={av}, b={bv}) differs from the state of the circuit with the numbers substituted "
+                       f"(unparameterized prefix length {prefix_len}); max deviation {np.abs(got - rho).max():.3g}", kind="simulate_sweep")
+        single = sim.simulate(circ, cirq.ParamResolver({"a": av, "b": bv}), qubit_order=[Q0, Q1], **kw)
+        if not np.allclose(state_of(single), got, atol=1e-8):
+            return bad(f"{desc}: result #{i} differs from simulate(circuit, {{a:{av}, b:{bv}}})", kind="simulate_sweep")
+    return good(nontrivial=any(L[i][2] for i in seq), max_prefix=prefix_len)
+
+
+def describe_sim(case):
+    seq, layout, si = case
+    return {"ops": [sim_letters()[i][0] for i in seq], "layout": ["one op per moment", "packed"][layout], "simulator": SIMS[si]}
+
+
+def sim_sweep_cases(tier):
+    n = len(sim_letters())
+    Lmax = 3 if tier == "quick" else 4
+    out = []
+    for k in range(1, Lmax + 1):
+        for seq in itertools.product(range(n), repeat=k):
+            for layout in (0, 1):
+                for si in range(len(SIMS)):
+                    if k == Lmax and si in (1, 3) and tier == "quick":
+                        continue
+                    out.append((seq, layout, si))
+    return out
+
+
+def run_letters():
+    return [
+        ("X(q0)**a", lambda a, b: cirq.X(Q0) ** a),
+        ("X(q1)**b", lambda a, b: cirq.X(Q1) ** b),
+        ("CNOT(q0,q1)", lambda a, b: cirq.CNOT(Q0, Q1)),
+        ("X(q1)", lambda a, b: cirq.X(Q1)),
+        ("X(q0)**(a*b)", lambda a, b: cirq.X(Q0) ** (a * b)),
+        ("SWAP(q0,q1)", lambda a, b: cirq.SWAP(Q0, Q1)),
+    ]
+
+
+def run_run_sweep(case):
+    seq, si = case
+    L = run_letters()
+    mk = lambda a, b: cirq.Circuit([L[i][1](a, b) for i in seq] + [cirq.measure(Q0, Q1, key="m")])
+    circ = mk(SA, SB)
+    sweep = cirq.Product(cirq.Points("a", [0, 1]), cirq.Points("b", [1, 0]))
+    pts = [(0, 1), (0, 0), (1, 1), (1, 0)]
+    sim = cirq.Simulator(seed=5) if si == 0 else cirq.DensityMatrixSimulator(seed=5)
+    desc = f"{'Simulator' if si == 0 else 'DensityMatrixSimulator'}.run_sweep(Circuit({[L[i][0] for i in seq]} + measure(q0,q1,key='m')), {sweep!r}, repetitions=3)"
+    results = sim.run_sweep(circ, sweep, repetitions=3)
+    if len(results) != 4:
+        return bad(f"{desc}: {len(results)} results for 4 assignments", kind="run_sweep")
+    for i, (av, bv) in enumerate(pts):
+        u = cirq.Circuit([L[j][1](av, bv) for j in seq]).unitary(qubit_order=[Q0, Q1])
+        psi = u[:, 0]
+        idx = int(np.argmax(np.abs(psi)))
+        if abs(abs(psi[idx]) - 1) > 1e-9:
+            raise core.HarnessError("run_sweep letter alphabet must keep basis states")
+        bits = [(idx >> 1) & 1, idx & 1]
+        m = np.asarray(results[i].measurements["m"])
+        pd = _norm_row(results[i].params.param_dict)
+        if pd != {"a": av, "b": bv}:
+            return bad(f"{desc}: result #{i} carries params {results[i].params!r}, assignment is a={av}, b={bv}", kind="run_sweep")
+        if m.shape != (3, 2) or not (m == np.array(bits)).all():
+            return bad(f"{desc}: result #{i} (a={av}, b={bv}) measured {m.tolist()}, the substituted circuit gives {bits} with certainty", kind="run_sweep")
+    return good(nontrivial=True)
+
+
+def run_sweep_cases(tier):
+    n = len(run_letters())
+    out = []
+    for k in range(1, (3 if tier == "quick" else 4) + 1):
+        for seq in itertools.product(range(n), repeat=k):
+            for si in (0, 1):
+                out.append((seq, si))
+    return out
+
+
+# ---------------------------------------------------------------------------------------------
+# stage (e): flatten
+
+def _flat_env():
+    return {"a": abs(core.generic(_SEED, 0)) + 0.21, "b": abs(core.generic(_SEED, 1)) + 0.43, "c": abs(core.generic(_SEED, 2)) + 0.17}
+
+
+def _gate_params(op):
+    g = op.gate
+    return [g.exponent]
+
+
+def run_flatten(case):
+    which, ei, variant = case
+    e = _EXPRS[which][ei]
+    env = _flat_env()
+    try:
+        val = nev(e, env)
+        e2val = None
+    except Hazard:
+        return Res(skipped=True, nontrivial=False)
+    if abs(val.imag) > 1e-12 or abs(val) > 1e4:
+        return Res(skipped=True, nontrivial=False)  # gate parameters are real
+    val = val.real
+    clash = sympy.Symbol(f"<{e!s}>")
+    clash_val = 0.77
+    resolver = dict(env)
+    if variant == 0:
+        circ = cirq.Circuit(cirq.X(Q0) ** e, cirq.Z(Q1) ** SA, cirq.Y(Q0) ** (e + 1))
+        ref = cirq.Circuit(cirq.X(Q0) ** val, cirq.Z(Q1) ** env["a"], cirq.Y(Q0) ** (val + 1))
+    elif variant == 1:
+        circ = cirq.Circuit(cirq.X(Q0) ** e, cirq.Z(Q1) ** clash)
+        ref = cirq.Circuit(cirq.X(Q0) ** val, cirq.Z(Q1) ** clash_val)
+        resolver[clash.name] = clash_val
+    else:
+        circ = cirq.Circuit(cirq.Z(Q1) ** clash, cirq.X(Q0) ** e)
+        ref = cirq.Circuit(cirq.Z(Q1) ** clash_val, cirq.X(Q0) ** val)
+        resolver[clash.name] = clash_val
+    uref = ref.unitary(qubit_order=[Q0, Q1])
+    desc = f"flatten({circ!s})".replace("\n", " / ")
+    flat, emap = cirq.flatten(circ)
+    for op in flat.all_operations():
+        for prm in _gate_params(op):
+            if isinstance(prm, sympy.Basic) and not isinstance(prm, sympy.Symbol):
+                return bad(f"{desc}: flattened circuit still contains the expression {prm!r}", kind="flatten")
+    vals = list(emap.values())
+    if len(set(vals)) != len(vals):
+        return bad(f"{desc}: expression map {emap!r} sends two different expressions to one symbol", kind="flatten_collision")
+    for k in emap:
+        if not isinstance(k, sympy.Basic):
+            return bad(f"{desc}: expression map key {k!r} is not a sympy expression", kind="flatten")
+
+    def check(tag, flat_c, params):
+        res = cirq.resolve_parameters(flat_c, params)
+        if cirq.is_parameterized(res):
+            return bad(f"{desc}: {tag}: resolving the flattened circuit with {params!r} leaves parameters {sorted(cirq.parameter_names(res))}; map {emap!r}", kind="flatten")
+        u = res.unitary(qubit_order=[Q0, Q1])
+        if not np.allclose(u, uref, atol=1e-8):
+            return bad(f"{desc}: {tag}: resolve(flattened, {params!r}) differs from the circuit with numbers substituted "
+                       f"({e!s} = {val}); map {emap!r}", kind="flatten_value")
+        return None
+
+    r = check("ExpressionMap.transform_params", flat, emap.transform_params(resolver))
+    if r:
+        return r
+    r = check("transform_params(ParamResolver)", flat, emap.transform_params(cirq.ParamResolver(resolver)))
+    if r:
+        return r
+    f2, p2 = cirq.flatten_with_params(circ, resolver)
+    r = check("flatten_with_params", f2, p2)
+    if r:
+        return r
+    orig = cirq.resolve_parameters(circ, resolver).unitary(qubit_order=[Q0, Q1])
+    if not np.allclose(orig, uref, atol=1e-8):
+        return bad(f"resolve_parameters({circ!s}, {resolver}) differs from the circuit with numbers substituted", kind="flatten_value")
+    # sweeps: second point moves a
+    env2 = dict(env)
+    env2["a"] = env["a"] + 0.35
+    try:
+        val2 = nev(e, env2)
+        ok2 = abs(val2.imag) < 1e-12 and abs(val2) < 1e4
+    except Hazard:
+        ok2 = False
+    if ok2:
+        fixed = {k: v for k, v in resolver.items() if k != "a"}
+        sweep = cirq.Zip(cirq.Points("a", [env["a"], env2["a"]]), *[cirq.Points(k, [v, v]) for k, v in fixed.items()])
+        f3, s3 = cirq.flatten_with_sweep(circ, sweep)
+        if not isinstance(s3, cirq.Sweep) or len(s3) != 2:
+            return bad(f"{desc}: flatten_with_sweep returned {s3!r} for a sweep of 2 assignments", kind="flatten")
+        s4 = emap.transform_sweep(list(sweep))
+        for tag, sw in (("flatten_with_sweep", s3), ("transform_sweep(list of resolvers)", s4)):
+            r = check(tag + "[0]", f3, sw[0])
+            if r:
+                return r
+            res1 = cirq.resolve_parameters(f3, sw[1])
+            v2 = val2.real
+            if variant == 0:
+                ref2 = cirq.Circuit(cirq.X(Q0) ** v2, cirq.Z(Q1) ** env2["a"], cirq.Y(Q0) ** (v2 + 1))
+            elif variant == 1:
+                ref2 = cirq.Circuit(cirq.X(Q0) ** v2, cirq.Z(Q1) ** clash_val)
+            else:
+                ref2 = cirq.Circuit(cirq.Z(Q1) ** clash_val, cirq.X(Q0) ** v2)
+            if cirq.is_parameterized(res1) or not np.allclose(res1.unitary(qubit_order=[Q0, Q1]), ref2.unitary(qubit_order=[Q0, Q1]), atol=1e-8):
+                return bad(f"{desc}: {tag}[1] = {sw[1]!r} does not reproduce the circuit at a={env2['a']} ({e!s} = {v2})", kind="flatten_value")
+    return good(nontrivial=not isinstance(e, sympy.Symbol))
+
+
+def describe_flatten(case):
+    which, ei, variant = case
+    return {"expr": repr(_EXPRS[which][ei]), "circuit": ["X**e, Z**a, Y**(e+1)", "X**e, Z**Symbol('<e>')", "Z**Symbol('<e>'), X**e"][variant]}
+
+
+def flatten_cases(tier):
+    out = []
+    for which in ("E1", "E2"):
+        for ei, e in enumerate(_EXPRS[which]):
+            if e.free_symbols:
+                for v in (0, 1, 2):
+                    out.append((which, ei, v))
+    return out
+
+
+# ---------------------------------------------------------------------------------------------
 
 def stages(tier, seed):
     _init(seed, tier)
@@ -712,4 +1843,12 @@ def stages(tier, seed):
         CaseStage("value_of_resolvers", value_of_resolver_cases(tier), run_value_of, reset=reset, describe=describe_value_of),
         CaseStage("value_of_histories", history_cases(tier), run_history, reset=reset, describe=describe_history),
         CaseStage("resolver_composition", compose_cases(tier), run_compose, reset=reset, describe=describe_compose),
+        CaseStage("objects", object_cases(tier), run_object, reset=reset, describe=describe_object),
+        CaseStage("sweep_terms", sweep_term_cases(tier), run_sweep_term, reset=reset, describe=describe_sweep_term),
+        CaseStage("sweepable_forms", sweepable_cases(tier), run_sweepable, reset=reset, describe=form_str),
+        CaseStage("dict_to_sweep", dict_to_sweep_cases(tier), run_dict_to_sweep, reset=reset),
+        CaseStage("list_of_dicts_to_zip", list_of_dicts_cases(tier), run_list_of_dicts, reset=reset),
+        CaseStage("simulate_sweep", sim_sweep_cases(tier), run_sim_sweep, reset=reset, describe=describe_sim),
+        CaseStage("run_sweep", run_sweep_cases(tier), run_run_sweep, reset=reset),
+        CaseStage("flatten", flatten_cases(tier), run_flatten, reset=reset, describe=describe_flatten),
     ]
